@@ -13,12 +13,11 @@ of its statements.  Here the two are composed: the position reported for the tex
 `pre ++ s :: post`, when `s` is the first statement that fails, lies within the EXTENT of form number
 `|pre|` of that text.
 
-Vocabulary (`RuschmProofs/TextExtentLemmas.lean`):
+Vocabulary:
 * `programText sts layout`, `programToks`, `ValidLayout`, `okStmt`, `printStmt`, `runStmts` — the
-  text-level vocabulary of C17More (`ProgramTextLemmas.lean`).  IMPORT NOTE: `ProgramTextLemmas.lean`
-  cannot be imported together with `C15.lean` (both import a declaration named `Ruschm.ExportSpec.loc`:
-  `LibMoreLemmas.lean:329` and `RuschmSpec/Loc.lean:126`); the definitions used here are the VERBATIM
-  COPY of them in `TextExtentLemmas.lean` (namespace `Ruschm.TextExtent`).
+  text-level vocabulary of C17More, `Ruschm.ProgramText.*` of `ProgramTextLemmas.lean`: THE SAME
+  definitions `C17More.lean` states its theorems about;
+and, from `RuschmProofs/TextExtentLemmas.lean` (namespace `Ruschm.TextExtent`):
 * `extent sts layout i : Pos × Pos` — the position `Text.advs` assigns (from 1:1) to the place where
   the first token of form `i` starts, and the cursor after its last token; both are `Text.advs` of a
   prefix of `programText sts layout`;
@@ -34,7 +33,7 @@ set_option linter.unusedVariables false
 
 namespace Ruschm.C15More
 open Ruschm Ruschm.Interp Ruschm.Front Ruschm.FrontSpec Ruschm.Xform Ruschm.CoreSyntax Ruschm.Text
-open Ruschm.TextExtent
+open Ruschm.ProgramText Ruschm.TextExtent
 
 /-! ## sample program, used by the `example`s: `(define x 1)  (1)  x` — the fault is in the second form -/
 
@@ -174,7 +173,8 @@ theorem positionOK_not_later (kinds : List Err) (sts : List Statement) (layout :
 example : PositionOK [.unbound, .nonProcedure] samplePgm layoutA 1 .nonProcedure (2, 3) := Or.inl (by decide)
 
 /-- THE FULL STATEMENT of (2): as `error_position_within_failing_form_partial` below, with the second
-alternative restricted to the kinds unbound variable and non-procedure. -/
+alternative restricted to the kinds unbound variable and non-procedure.  PROVED:
+`error_position_within_failing_form` below. -/
 def error_position_within_failing_form_full : Prop :=
   ∀ (fuel : Nat) (st st₁ st₂ : State) (pre post : List Statement) (s : Statement)
     (v : Option Value) (e : Err) (loc : Loc) (layout : List (List Char)),
@@ -205,10 +205,9 @@ of the text.
 
 PARTIAL w.r.t. `error_position_within_failing_form_full`: the kinds cyclic import / missing library are
 not excluded from the second alternative.  (They cannot occur there — the state never stores the position
-of a library name — but the invariant available from `LocLemmas` (`InterpLoc.evalAst_in`) bounds the
-positions in the state after an import declaration by those of the declaration, roles included, which is
-too coarse to show it.)  `error_position_within_failing_form_expr` below closes the gap when the failing
-statement is an expression or a definition. -/
+of a library name: `LibNamePos.evalAst_noLib`.)  SUPERSEDED by `error_position_within_failing_form` below,
+which proves the full statement; kept because `layout_moves_positions_only` is stated with this list of
+kinds. -/
 theorem error_position_within_failing_form_partial (fuel : Nat) (st st₁ st₂ : State)
     (pre post : List Statement) (s : Statement) (v : Option Value) (e : Err) (loc : Loc)
     (layout : List (List Char))
@@ -272,7 +271,7 @@ theorem error_position_within_failing_form_expr (fuel : Nat) (st st₁ st₂ : S
     ∃ l st₂', evalText fuel st (programText (pre ++ s :: post) layout) = (.error (e, some l), st₂') ∧
       st₂'.unloc = st₂.unloc ∧
       PositionOK [.unbound, .nonProcedure] (pre ++ s :: post) layout pre.length e l := by
-  obtain ⟨d, s', st₁', l, st₂', g1, g2, g3, g4, g5, g6, g7, g8, g9⟩ :=
+  obtain ⟨d, s', st₁', l, st₂', g1, g2, g3, g4, g5, g6, g7, g8, g9, -⟩ :=
     text_fails_at fuel st st₁ st₂ pre post s v e loc layout hst hok hsup hl hpre hfail
   have htoks := programToks_supported _ hsup
   rw [programToks_append, programToks_cons] at htoks
@@ -304,6 +303,154 @@ example : ∃ l st', evalText 2 (default_ false) "(define x 1)\n(1)\nx\n".toList
   rw [show samplePre ++ sampleBad :: samplePost = samplePgm from rfl, sample_textA] at k1
   exact ⟨l, st', k1, k3⟩
 
+/-- THE REPORTED POSITION LIES WITHIN THE FAILING FORM — THE FULL STATEMENT, for every program statement
+(expression, definition, IMPORT DECLARATION).  Let `pre ++ s :: post` be program statements (`okStmt`) whose
+literals the lexer can spell, written as a text under ANY valid layout and run by `Interpreter::eval` from a
+state `st` that holds no source position.  If the statements `pre` succeed (leaving `st₁`) and `s` — form
+number `i = |pre|` — is the first that fails, with an error of kind `e`, then the run of the TEXT ends in an
+error of that kind `e` which CARRIES a position `l`, in the state `s` left (up to the positions stored in
+closures), and
+ * EITHER `l` lies within the extent of form `i`;
+ * OR the kind is UNBOUND VARIABLE or NON-PROCEDURE and `l` lies within the extent of an EARLIER form `j < i`
+   (the identifier / operator written in a procedure that form `j` defined);
+ * or the error arose while reading a library source file (C15's residue).
+In particular a CYCLIC IMPORT or a MISSING LIBRARY is reported inside the import declaration that failed —
+at the library name, by `C15.error_kind_and_position` —, never at a library name of an earlier
+declaration: the state never holds a position in the role of a library name
+(`LibNamePos.evalAst_noLib`: what an import declaration leaves in the state does not depend on the positions
+written in its import sets). -/
+theorem error_position_within_failing_form : error_position_within_failing_form_full := by
+  intro fuel st st₁ st₂ pre post s v e loc layout hst hok hsup hl hpre hfail
+  obtain ⟨d, s', st₁', l, st₂', g1, g2, g3, g4, g5, g6, g7, g8, g9, g10⟩ :=
+    text_fails_at fuel st st₁ st₂ pre post s v e loc layout hst hok hsup hl hpre hfail
+  have htoks := programToks_supported _ hsup
+  rw [programToks_append, programToks_cons] at htoks
+  have hin : ∀ q ∈ locs d, Within (extent (pre ++ s :: post) layout pre.length) q := fun q hq =>
+    formTokLocs_within pre post s layout
+      (fun t ht => htoks t (List.mem_append_right _ (List.mem_append_left _ ht))) q (g8 q hq)
+  refine ⟨l, st₂', g1, g2, ?_⟩
+  -- an unbound variable / a non-procedure: in the form, or in an earlier form, or from a library source
+  have outside : e = .unbound ∨ e = .nonProcedure →
+      PositionOK [.unbound, .nonProcedure] (pre ++ s :: post) layout pre.length e l := by
+    intro hk
+    rcases fail_position_cases (T := locs st₁') g3 (fun q hq => hq) g7 with h | ⟨-, h⟩ | h
+    · exact Or.inl (hin l h)
+    · refine Or.inr (Or.inl ⟨by rcases hk with rfl | rfl <;> simp, ?_⟩)
+      obtain ⟨j, hj, hw⟩ := locate_in_some_extent layout pre
+        (fun t ht => htoks t (List.mem_append_left _ ht)) l (g9 l h)
+      exact ⟨j, hj, by rw [extent_prefix pre (s :: post) layout j hj]; exact hw⟩
+    · exact Or.inr (Or.inr h)
+  rcases C15.error_kind_and_position g7 with hloc | ⟨l', hl', hk⟩
+  · -- the statement's own position
+    exact Or.inl (hin l ((C15.xform_stmt_loc g3).1 l hloc.symm))
+  · cases hl'
+    rcases hk with ⟨hk, -⟩ | ⟨hk, -⟩ | ⟨-, hm⟩ | hk
+    · exact outside (Or.inl hk)
+    · exact outside (Or.inr hk)
+    · -- cyclic import / missing library: a library name; the state holds none, so one of the form
+      rcases List.mem_append.1 hm with hm | hm
+      · exact absurd rfl (g10 _ hm)
+      · exact Or.inl (hin l (C15.xform_locs g3 l (mem_unrole.2 ⟨_, hm⟩)))
+    · exact Or.inr (Or.inr hk)
+
+/-- for the sample (hypotheses: the `example` after `error_position_within_failing_form_partial`): the
+non-procedure error of `(define x 1)⏎(1)⏎x⏎` is reported within 2:1–2:4 or — as far as this theorem goes —
+at a token of line 1 -/
+example : ∃ l st', evalText 2 (default_ false) "(define x 1)\n(1)\nx\n".toList = (.error (.nonProcedure, some l), st') ∧
+    PositionOK [.unbound, .nonProcedure] samplePgm layoutA 1 .nonProcedure l := by
+  obtain ⟨v, st₁, h1⟩ := sample_pre_ok (default_ false)
+  obtain ⟨loc, st₂, h2⟩ := sample_fail st₁
+  obtain ⟨l, st', k1, -, k3⟩ := error_position_within_failing_form 2 (default_ false) st₁ st₂ samplePre samplePost
+    sampleBad v .nonProcedure loc layoutA (C15.default_state_unlocated false 0).1 sample_ok sample_sup
+    sample_layoutA h1 h2
+  rw [show samplePre ++ sampleBad :: samplePost = samplePgm from rfl, sample_textA] at k1
+  exact ⟨l, st', k1, k3⟩
+
+/-! sample program with a failing IMPORT: `(import (nolib))  x` -/
+
+private def sampleImp : Statement := .importDecl [.direct [.ident "nolib"] none] none
+private def impPost : List Statement := [.expr (.sym "x" none)]
+private def layoutImp : List (List Char) := [[], [], [' '], [], [], [], ['\n'], ['\n']]
+
+private theorem default_fields : (default_ false).importEnd = false ∧ (default_ false).inProgress = [] ∧
+    (default_ false).instances = [] ∧ (default_ false).files = [] := by
+  unfold default_
+  generalize Gen.baseLibText = b
+  generalize Gen.writeLibText = w
+  exact ⟨rfl, rfl, rfl, rfl⟩
+
+private theorem default_no_nolib : libLookup (default_ false).factories [.ident "nolib"] = none := by
+  unfold default_
+  generalize Gen.baseLibText = b
+  generalize Gen.writeLibText = w
+  simp only []
+  cases factoryOfText libSchemeBase b <;> cases factoryOfText libSchemeWrite w <;>
+    simp [libLookup, libRuschmBase, libRuschmWrite, libSchemeBase, libSchemeWrite]
+
+/-- importing a library that is neither registered nor on file fails: missing library -/
+private theorem sampleImp_fails (st : State) (h1 : st.importEnd = false) (h2 : st.inProgress = [])
+    (h3 : st.instances = []) (h4 : st.files = []) (h5 : libLookup st.factories [.ident "nolib"] = none) :
+    ∃ st₂, evalAst 4 st sampleImp = (.error (.libNotFound, none), st₂) := by
+  have key : (evalAst 4 st sampleImp).1 = .error (.libNotFound, none) := by
+    unfold sampleImp evalAst evalImport evalImportSets evalImportSet getLibrary
+    simp only [h1, h2, h3, h4, h5, libLookup, List.lookup, Bool.not_false, if_true, List.contains_nil,
+      Bool.false_eq_true, if_false]
+    rfl
+  generalize evalAst 4 st sampleImp = x at key
+  obtain ⟨r, st₂⟩ := x
+  exact ⟨st₂, by simp only at key; rw [key]⟩
+
+private theorem sampleImp_ok :
+    ∀ s' ∈ [] ++ sampleImp :: impPost, okStmt (C01More.macroOf (default_ false).syn) s' := by
+  rw [default_macros]
+  intro s hs
+  simp only [sampleImp, impPost, List.nil_append, List.mem_cons, List.not_mem_nil, or_false] at hs
+  rcases hs with rfl | rfl
+  · intro t ht
+    simp only [List.mem_cons, List.not_mem_nil, or_false] at ht
+    subst ht
+    exact ⟨_, _, rfl, by decide⟩
+  · show coreStmt C01More.isStdMacro (.expr _) = true
+    decide
+
+private theorem sampleImp_sup : ∀ s' ∈ [] ++ sampleImp :: impPost, SupportedD (printStmt s') := by
+  intro s hs
+  simp only [sampleImp, impPost, List.nil_append, List.mem_cons, List.not_mem_nil, or_false] at hs
+  rcases hs with rfl | rfl
+  · exact ⟨.inl (by decide), ⟨.inl (by decide), trivial⟩, trivial⟩
+  · exact .inl (by decide)
+
+/-- the hypotheses of `error_position_within_failing_form` hold for `(import (nolib))⏎x⏎` in
+`Interpreter::default()`, the failing statement being the IMPORT DECLARATION (form 0, extent 1:1–1:17) … -/
+example : programText ([] ++ sampleImp :: impPost) layoutImp = "(import (nolib))\nx\n".toList ∧
+    extent ([] ++ sampleImp :: impPost) layoutImp 0 = ((1, 1), (1, 17)) ∧
+    locs (default_ false) = [] ∧
+    (∀ s' ∈ [] ++ sampleImp :: impPost, okStmt (C01More.macroOf (default_ false).syn) s') ∧
+    (∀ s' ∈ [] ++ sampleImp :: impPost, SupportedD (printStmt s')) ∧
+    ValidLayout (programToks ([] ++ sampleImp :: impPost)) layoutImp ∧
+    runStmts 4 (default_ false) [] none = (.ok none, default_ false) ∧
+    ∃ st₂, evalAst 4 (default_ false) sampleImp = (.error (.libNotFound, none), st₂) :=
+  ⟨by decide, by decide, (C15.default_state_unlocated false 0).1, sampleImp_ok, sampleImp_sup, by decide, rfl,
+    sampleImp_fails _ default_fields.1 default_fields.2.1 default_fields.2.2.1 default_fields.2.2.2 default_no_nolib⟩
+
+/-- … so the missing library is reported at a position WITHIN THE IMPORT DECLARATION, 1:1–1:17: there is no
+earlier form, and a missing-library error is not an error from reading a library source unless a library
+source was read (the third alternative, C15's residue) -/
+example : ∃ l st', evalText 4 (default_ false) "(import (nolib))\nx\n".toList = (.error (.libNotFound, some l), st') ∧
+    (Within ((1, 1), (1, 17)) l ∨ C15.LibReadErr (.libNotFound, some l)) := by
+  obtain ⟨st₂, h2⟩ := sampleImp_fails _ default_fields.1 default_fields.2.1 default_fields.2.2.1
+    default_fields.2.2.2 default_no_nolib
+  obtain ⟨l, st', k1, -, k3⟩ := error_position_within_failing_form 4 (default_ false) (default_ false) st₂ []
+    impPost sampleImp none .libNotFound none layoutImp (C15.default_state_unlocated false 0).1 sampleImp_ok
+    sampleImp_sup (by decide) rfl h2
+  rw [show programText ([] ++ sampleImp :: impPost) layoutImp = "(import (nolib))\nx\n".toList by decide] at k1
+  refine ⟨l, st', k1, ?_⟩
+  rcases k3 with h | ⟨-, j, hj, -⟩ | h
+  · rw [show extent ([] ++ sampleImp :: impPost) layoutImp ([] : List Statement).length = ((1, 1), (1, 17)) by decide] at h
+    exact Or.inl h
+  · exact absurd hj (by simp)
+  · exact Or.inr h
+
 /-! ## 3. an unbound identifier is reported exactly at the identifier -/
 
 /-- AN UNBOUND VARIABLE IS REPORTED AT THE IDENTIFIER ITSELF.  Let form `i = |pre|` of the program be a
@@ -329,7 +476,7 @@ theorem error_position_is_the_identifier (fuel : Nat) (st st₁ : State) (pre po
     simp only [stmtToks_sym, textThrough, List.append_nil, advs_append]
   refine ⟨?_, hext⟩
   obtain ⟨st₂, hfail⟩ := evalAst_unbound_sym fuel st₁ x loc₀ hx
-  obtain ⟨d, s', st₁', l, st₂', g1, g2, g3, g4, g5, g6, g7, g8, g9⟩ :=
+  obtain ⟨d, s', st₁', l, st₂', g1, g2, g3, g4, g5, g6, g7, g8, g9, -⟩ :=
     text_fails_at (fuel + 1) st st₁ st₂ pre post (.expr (.sym x loc₀)) v .unbound loc₀ layout hst hok hsup hl hpre hfail
   refine ⟨st₂', ?_⟩
   rw [g1]
@@ -488,5 +635,45 @@ example : ∃ p₁ p₂ st₁' st₂',
   rw [sample_textA] at k1
   rw [sample_textB] at k2
   exact ⟨p₁, p₂, st₁', st₂', k1, k2, (k6 trivial).1, (k6 trivial).2⟩
+
+/-- THE LAYOUT MOVES POSITIONS ONLY, with the full classification (`error_position_within_failing_form`) for
+EVERY failing statement, import declarations included: under two valid layouts of the same statements both
+texts fail with the same kind `e` for the same form `i = |pre|`, in states equal up to stored positions, and
+each reported position lies within form `i` of ITS OWN text — or, for an unbound variable / a non-procedure
+only, within an earlier form of its own text; or the error arose while reading a library source. -/
+theorem layout_moves_positions_only_full (fuel : Nat) (st st₁ st₂ : State) (pre post : List Statement)
+    (s : Statement) (v : Option Value) (e : Err) (loc : Loc) (l₁ l₂ : List (List Char))
+    (hst : locs st = [])
+    (hok : ∀ s' ∈ pre ++ s :: post, okStmt (C01More.macroOf st.syn) s')
+    (hsup : ∀ s' ∈ pre ++ s :: post, SupportedD (printStmt s'))
+    (h₁ : ValidLayout (programToks (pre ++ s :: post)) l₁) (h₂ : ValidLayout (programToks (pre ++ s :: post)) l₂)
+    (hpre : runStmts fuel st pre none = (.ok v, st₁)) (hfail : evalAst fuel st₁ s = (.error (e, loc), st₂)) :
+    ∃ p₁ p₂ st₁' st₂',
+      evalText fuel st (programText (pre ++ s :: post) l₁) = (.error (e, some p₁), st₁') ∧
+      evalText fuel st (programText (pre ++ s :: post) l₂) = (.error (e, some p₂), st₂') ∧
+      st₁'.unloc = st₂'.unloc ∧
+      PositionOK [.unbound, .nonProcedure] (pre ++ s :: post) l₁ pre.length e p₁ ∧
+      PositionOK [.unbound, .nonProcedure] (pre ++ s :: post) l₂ pre.length e p₂ := by
+  obtain ⟨p₁, st₁', a1, a2, a3⟩ :=
+    error_position_within_failing_form fuel st st₁ st₂ pre post s v e loc l₁ hst hok hsup h₁ hpre hfail
+  obtain ⟨p₂, st₂', b1, b2, b3⟩ :=
+    error_position_within_failing_form fuel st st₁ st₂ pre post s v e loc l₂ hst hok hsup h₂ hpre hfail
+  exact ⟨p₁, p₂, st₁', st₂', a1, b1, a2.trans b2.symm, a3, b3⟩
+
+/-- the hypotheses are those of `layout_moves_positions_only` (the sample program under its two layouts) -/
+example : ∃ p₁ p₂ st₁' st₂',
+    evalText 2 (default_ false) "(define x 1)\n(1)\nx\n".toList = (.error (.nonProcedure, some p₁), st₁') ∧
+    evalText 2 (default_ false) ";c\n( define x\n1 )  (1) x".toList = (.error (.nonProcedure, some p₂), st₂') ∧
+    PositionOK [.unbound, .nonProcedure] samplePgm layoutA 1 .nonProcedure p₁ ∧
+    PositionOK [.unbound, .nonProcedure] samplePgm layoutB 1 .nonProcedure p₂ := by
+  obtain ⟨v, st₁, h1⟩ := sample_pre_ok (default_ false)
+  obtain ⟨loc, st₂, h2⟩ := sample_fail st₁
+  obtain ⟨p₁, p₂, st₁', st₂', k1, k2, -, k4, k5⟩ := layout_moves_positions_only_full 2 (default_ false) st₁ st₂
+    samplePre samplePost sampleBad v .nonProcedure loc layoutA layoutB (C15.default_state_unlocated false 0).1
+    sample_ok sample_sup sample_layoutA sample_layoutB h1 h2
+  rw [show samplePre ++ sampleBad :: samplePost = samplePgm from rfl] at k1 k2
+  rw [sample_textA] at k1
+  rw [sample_textB] at k2
+  exact ⟨p₁, p₂, st₁', st₂', k1, k2, k4, k5⟩
 
 end Ruschm.C15More
